@@ -26,6 +26,7 @@ CONSTANTS
   ModSecs,        \* set of ModifyAckDeadline values
   JobAges, JobMaxes,
   Ops,            \* enabled operation names (action alphabet of the family)
+  ProjOfName,     \* function: model resource name -> project id (names outside its domain: "p")
   Setup,          \* sequence of CreateTopic / CreateSub requests applied first, in order
   Depth,          \* behaviours are printed when this depth is reached (0 = never)
   AttBound,       \* state constraint: largest attempt count explored
@@ -58,6 +59,8 @@ Fail(e0, code) == Do(e0 @@ [code |-> code], S)
 OK(e0, C2) == Do(e0 @@ [code |-> "OK"], C2)
 
 Pick(X) == CHOOSE x \in X : TRUE
+Proj(nm) == IF nm \in DOMAIN ProjOfName THEN ProjOfName[nm] ELSE "p"
+Projects == {"p"} \cup {ProjOfName[n] : n \in DOMAIN ProjOfName}
 RECURSIVE TakeK(_, _)
 TakeK(X, k) == IF k = 0 \/ X = {} THEN {} ELSE LET x == Pick(X) IN {x} \cup TakeK(X \ {x}, k - 1)
 RECURSIVE SeqOfSet(_)
@@ -79,7 +82,7 @@ CreateTopic(nm) ==
   ELSE /\ S.nt < MaxTopics
        /\ OK(e, [S EXCEPT !.nt = @ + 1,
                           !.topics = (S.nt + 1 :> [name |-> nm, live |-> TRUE, delAt |-> -1,
-                                                   labels |-> <<>>, proj |-> "p"]) @@ @])
+                                                   labels |-> <<>>, proj |-> Proj(nm)]) @@ @])
 
 DeleteTopic(nm) ==
   LET e == [op |-> "DeleteTopic", name |-> nm] T == TopicsNamed(S, nm) IN
@@ -104,13 +107,19 @@ CreateSub(c) ==
                      exp |-> S.now + cf.ttl, ttl |-> cf.ttl, mttl |-> cf.mttl, ord |-> cf.ord,
                      filt |-> cf.filt, minB |-> cf.minB, maxB |-> cf.maxB, dlt |-> Pick(DT),
                      maxAtt |-> cf.maxAtt, delay |-> 0, push |-> cf.push, labels |-> cf.labels,
-                     proj |-> "p"]) @@ @])
+                     proj |-> Proj(c.name)]) @@ @])
 
 DeleteSub(nm) ==
   LET e == [op |-> "DeleteSub", name |-> nm] X == SubsNamed(S, nm) IN
   IF X = {} THEN Fail(e, "NotFound")
   ELSE OK(e, [S EXCEPT !.subs = [s \in DOMAIN @ |->
                  IF s \in X THEN [@[s] EXCEPT !.live = FALSE, !.delAt = S.now] ELSE @[s]]])
+
+Delays == {0, 3}   \* injected delivery delays (seconds)
+SetDelay(nm, d) ==
+  LET e == [op |-> "SetDelay", name |-> nm, delay |-> d * TU] X == SubsNamed(S, nm) IN
+  IF X = {} THEN Fail(e, "NotFound")
+  ELSE OK(e, [S EXCEPT !.subs = [s \in DOMAIN @ |-> IF s \in X THEN [@[s] EXCEPT !.delay = d * TU] ELSE @[s]]])
 
 Batches == UNION {[1..n -> MsgKinds] : n \in 1..BatchMax}
 
@@ -216,7 +225,7 @@ CreateSnap(nm, snm) ==
   LET e == [op |-> "CreateSnap", name |-> nm, sub |-> snm] X == SubsNamed(S, snm) IN
   IF nm \in DOMAIN S.snaps THEN Fail(e, "AlreadyExists")
   ELSE IF X = {} THEN Fail(e, "NotFound")
-  ELSE OK(e, [S EXCEPT !.snaps = (nm :> [topic |-> S.subs[Pick(X)].topic, proj |-> "p"]) @@ @])
+  ELSE OK(e, [S EXCEPT !.snaps = (nm :> [topic |-> S.subs[Pick(X)].topic, proj |-> Proj(nm)]) @@ @])
 
 DeleteSnap(nm) ==
   LET e == [op |-> "DeleteSnap", name |-> nm] IN
@@ -301,11 +310,11 @@ Get(kind, nm) ==
       e == [op |-> "Get", kind |-> kind, name |-> nm, cfg |-> cfg]
   IN IF live THEN OK(e, S) ELSE Fail(e, "NotFound")
 
-List(kind) ==
-  LET names == CASE kind = "topic" -> {S.topics[t].name : t \in {x \in DOMAIN S.topics : S.topics[x].live}}
-                 [] kind = "sub" -> {S.subs[s].name : s \in {x \in DOMAIN S.subs : S.subs[x].live}}
-                 [] kind = "snap" -> DOMAIN S.snaps
-  IN OK([op |-> "List", kind |-> kind, proj |-> "p", names |-> SeqOfSet(names)], S)
+List(kind, pr, page) ==
+  LET names == CASE kind = "topic" -> {S.topics[t].name : t \in {x \in DOMAIN S.topics : S.topics[x].live /\ S.topics[x].proj = pr}}
+                 [] kind = "sub" -> {S.subs[s].name : s \in {x \in DOMAIN S.subs : S.subs[x].live /\ S.subs[x].proj = pr}}
+                 [] kind = "snap" -> {n \in DOMAIN S.snaps : S.snaps[n].proj = pr}
+  IN OK([op |-> "List", kind |-> kind, proj |-> pr, page |-> page, names |-> SeqOfSet(names)], S)
 
 ---------------------------------------------------------------------------
 SetupStep ==
@@ -330,6 +339,7 @@ OpNext(op) ==
     [] op = "DeleteTopic" -> \E nm \in TopicNames : DeleteTopic(nm)
     [] op = "CreateSub" -> \E c \in SubCfgs : CreateSub(c)
     [] op = "DeleteSub" -> \E nm \in SubNames : DeleteSub(nm)
+    [] op = "SetDelay" -> \E nm \in SubNames, d \in Delays : SetDelay(nm, d)
     [] op = "Publish" -> \E nm \in TopicNames, b \in Batches : Publish(nm, b)
     [] op = "Pull" -> \E nm \in SubNames, k \in PullMaxes : Pull(nm, k)
     [] op = "Ack" -> \E nm \in SubNames, q \in IdSeqs : Ack(nm, q)
@@ -343,7 +353,7 @@ OpNext(op) ==
     [] op = "ExpireSubs" -> \E k \in JobMaxes : ExpireSubs(k)
     [] op \in PruneJobs -> \E a \in JobAges, k \in JobMaxes : Prune(op, a, k)
     [] op = "Get" -> GetAny
-    [] op = "List" -> \E k \in {"topic", "sub", "snap"} : List(k)
+    [] op = "List" -> \E k \in {"topic", "sub", "snap"}, pr \in Projects, pg \in {0, 1, 2, 100} : List(k, pr, pg)
     [] op = "Tick" -> \E d \in TickDs : Tick(d)
 
 (* Generation (-simulate): TLC chooses uniformly among successor STATES,    *)
